@@ -45,7 +45,8 @@ func runC11(c *Ctx) {
 	type stream struct {
 		n      int
 		rs     *RawStream
-		closed bool // closed by the peer
+		closed  bool // closed by the peer
+		stalled bool // the peer stopped reading it
 	}
 	var streams []*stream
 	var current *stream
@@ -58,7 +59,7 @@ func runC11(c *Ctx) {
 	}
 	var ops []opT
 	for i := 0; i < nOps; i++ {
-		k := []string{"open", "open", "close-current", "close-old", "pause"}[t.Draw(5)]
+		k := []string{"open", "open", "close-current", "close-old", "pause", "stall-current"}[t.Draw(6)]
 		if i == 0 {
 			k = "open"
 		}
@@ -120,6 +121,14 @@ func runC11(c *Ctx) {
 						break
 					}
 				}
+			case "stall-current":
+				// the peer stops reading the current stream (a half-dead connection): sends to it block
+				// in their write; a reconnect must still get the old stream closed and own the session
+				if current != nil && !current.closed && !current.stalled {
+					current.stalled = true
+					current.rs.Conn.StopReading(1 << 10)
+					s.Probe("c11.stalled_stream")
+				}
 			case "pause":
 				s.Sleep(time.Duration(1+op.Arg) * time.Millisecond)
 			}
@@ -143,7 +152,23 @@ func runC11(c *Ctx) {
 			}
 		}
 	})
-	s.WaitTasks(10*time.Minute, peer, sender)
+	s.WaitTasks(10*time.Minute, peer)
+	s.Settle(20 * time.Millisecond)
+	// a stream the peer has stopped reading must not keep its successor from taking over: the server
+	// closes it although a send may be stuck in a write to it
+	if peerDone {
+		for i, st := range streams {
+			if st.stalled && i+1 < len(streams) && !st.closed && !st.rs.Conn.Done() {
+				s.Violate("C11|old-stream-not-closed|stalled", "stream #%d (which the peer stopped reading, a send is blocked in a write to it) is still being served although stream #%d was opened after it", st.n, streams[i+1].n)
+			}
+		}
+	}
+	for _, st := range streams {
+		if st.stalled {
+			st.rs.Conn.ResumeReading()
+		}
+	}
+	s.WaitTasks(10*time.Minute, sender)
 	s.Settle(20 * time.Millisecond)
 
 	// final state: with the dust settled a send succeeds iff a stream is open
